@@ -19,7 +19,8 @@ RULES = {"C13": (
 ASSUMPTIONS = {"C13": [
     "'in non-decreasing scheduled-time order' is read for jobs pending at the same moment (a job scheduled into the "
     "past cannot run before jobs that already ran); equal times are free",
-    "an event of the *current* clock value that was already popped when a job was scheduled may start before that job",
+    "an event of the *current* clock value that was already popped when a job was scheduled may start before that job; "
+    "a derived event of that clock value pushed in the same pass (not popped yet) may not",
     "jobs scheduled by jobs of the final drain are only required not to run twice",
 ]}
 WATCH = ["basana.core.dispatcher", "basana.core.helpers"]
